@@ -273,6 +273,8 @@ def judge (j : Json) : Except String Verdict := do
   let maxObj := (ps.toList ++ cs.toList).foldl max 0
   let rejections := (attempts.filter (·.res == "oversized")).length
   let evs := attempts.map Attempt.toEv
+  let stallAt := getNatD inp "stall_at"
+  let stalled := stallAt > 0 && planC.length ≥ stallAt && (match planC[stallAt - 1]? with | some c => c.more | none => false)
   -- ------------------------------------------------------------ spec, on the observation
   let fullCall := fun (c : List Nat × List Nat) => c.1 == pods && c.2 == ctrs
   let expectReturned := (ctrs.take nUpd)
@@ -291,6 +293,8 @@ def judge (j : Json) : Except String Verdict := do
       (false, "C09:handler-args", s!"handler called with {calls.map fun c => (c.1.length, c.2.length)} of {nP}/{nC} objects, or out of order")
     else if bad != 0 then (false, "C09:content", s!"{bad} delivered object(s) differ from what the runtime supplied")
     else if calls.length > 1 then (false, "C09:handler-calls", s!"handler called {calls.length} times")
+    else if outcome == "synced" && stalled then
+      (false, "C09:stall:synced", s!"the reply to message {stallAt} came after the request timeout, yet the plugin counts as synchronized")
     else if outcome == "synced" then
       if handler == "none" then
         if !calls.isEmpty then (false, "C09:handler-calls", "a plugin without handler was called")
@@ -314,6 +318,12 @@ def judge (j : Json) : Except String Verdict := do
         -- sender gave up before
         if calls.length == 1 || !transmissible then (true, "", "")
         else (false, s!"C09:failed-transmissible:{errKind}", "registration failed before the handler was called although every small message fits")
+      else if stalled then
+        -- the reply to a `more` message came after the request timeout: the stub HAS that chunk,
+        -- so the only clean reaction is to give up - no further message, handler never called
+        if !calls.isEmpty then (false, "C09:stall:handler-calls", "the runtime timed out on a message of a split synchronization, yet the handler was called")
+        else if planC.length != stallAt then (false, "C09:stall:continued", s!"the runtime timed out on message {stallAt} but {planC.length} messages reached the plugin")
+        else (true, "", "")
       else if replyLost && calls.length == 1 then
         -- the reply cannot be sent back: the handler was called once with everything, the runtime
         -- gives up at the request deadline, plugin not activated: the clean failure of the property
@@ -356,6 +366,8 @@ def judge (j : Json) : Except String Verdict := do
   let mReplies := replies.map fun r => match r with
     | .ok rp => some (rp.update.length, rp.more)
     | .error _ => none
+  -- a reply held back beyond the request timeout is a reply the runtime never gets
+  let mReplies := if stalled then mReplies.set (stallAt - 1) none else mReplies
   let recvOk := !normal || (rst.calls == calls && (mReplies == obsReplies || mReplies ++ [none] == obsReplies))
   -- deterministic model of the PATCHED code (exact arithmetic for float64, envelope of 54
   -- bytes): measured only, never enforced — the property does not depend on the counts
@@ -418,6 +430,7 @@ def judge (j : Json) : Except String Verdict := do
     if transmissible then "transmissible" else "not-transmissible"]
     ++ (if outcome == "failed" then [s!"err:{errKind}"] else [])
     ++ (if runaway then ["runaway"] else [])
+    ++ (if stalled then [s!"reply:late:message-{stallAt}"] else [])
     ++ (if outcome == "failed" && errKind == "too-large" && maxObj + 64 ≤ limit then ["refused-though-each-object-fits"] else [])
     ++ (if reshrink then ["reshrink-midway"] else [])
     ++ (if minChunk then ["min-chunk"] else [])
